@@ -156,6 +156,10 @@ def evaluate(res, meta):
                 break
         cls = classify(msg)
         rec = {'item': item, 'label': label, 'cls': cls, 'message': msg, 'rendered': d.get('rendered', '')}
+        if item and item.endswith('__canary') and re.search(r'rlimit|Resource limit|timed out', msg, re.I):
+            # the twin `ensures false` could not be proved within the resource limit: that is a rejection
+            canary_failed.add(item[:-len('__canary')])
+            continue
         if cls is None or item is None:
             if NONSEMANTIC.search(msg) or cls is None:
                 hard.append(rec)
@@ -175,7 +179,8 @@ def evaluate(res, meta):
                 times[fb['function']] = fb.get('time-micros', 0) / 1e6
                 succ[fb['function']] = fb.get('success')
     vr = (j or {}).get('verification-results', {})
-    return {'failures': failures, 'hard': hard, 'canary_failed': canary_failed, 'fn_times': times,
+    crashed = bool(re.search(r"thread '.*' panicked|internal compiler error|ill-typed AIR|error: internal", res['stderr']))
+    return {'crashed': crashed, 'rc': res['rc'], 'failures': failures, 'hard': hard, 'canary_failed': canary_failed, 'fn_times': times,
             'fn_success': succ, 'verified': vr.get('verified'), 'errors': vr.get('errors'),
             'vir_error': vr.get('encountered-vir-error'), 'have_json': j is not None,
             'smt_ms': (j or {}).get('times-ms', {}).get('smt', {}).get('total'),
